@@ -781,12 +781,16 @@ class Engine:
         if process_updates:
             for path, process in process_updates:
                 assoc_path(self.processes, path, process)
+                # A path names one object: a step published there
+                # before is replaced by this process.
+                delete_in(self.steps, path)
                 self._add_process_path(process, path, {})
 
         if step_updates:
             for path, step in step_updates:
                 dependencies = flow_update_dict.get(path)
                 assoc_path(self.steps, path, step)
+                delete_in(self.processes, path)
                 self._add_step_path(step, path, dependencies)
 
         if deletions:
